@@ -425,7 +425,7 @@ PROPS = {
         "rules": [lambda prog, tier: exact.run(prog, {"READ": {"roots": ["mpq_QSread_prob", "mpq_QSget_prob"], "closure": True, "word": True}},
                                                floors=[("exact literal parser reachable from QSread_prob", ["mpq_QSread_prob"], "mpq_EGlpNumReadStrXc", 1),
                                                        ("exact literal parser reachable from ILLget_value", ["mpq_ILLget_value"], "mpq_EGlpNumReadStrXc", 1)]),
-                  lambda prog, tier: rescan.run(prog), lambda prog, tier: defaults.run(prog), lambda prog, tier: strscan.run(prog),
+                  lambda prog, tier: rescan.run(prog), lambda prog, tier: defaults.run(prog), lambda prog, tier: strscan.run(prog), lambda prog, tier: strscan.run_advance(prog),
                   lambda prog, tier: rawidx.run(prog)],
         "technique": "lossy-conversion sink census over the reader call-graph closure of the rational instantiation (type-resolved, after "
                      "preprocessing: the #ifdef between the exact and the double literal reader is resolved as the build resolves it)",
@@ -446,7 +446,7 @@ PROPS = {
                   lambda prog, tier: errlost.run(prog, scope_funcs=set(prog.reachable([prog.require_fn(r).key for r in
                                                                                      ("mpq_QSread_prob", "mpq_QSget_prob", "mpq_QSread_basis", "mpq_QSread_and_load_basis")])), floor=50),
                   lambda prog, tier: allockind.run(prog),
-                  lambda prog, tier: strscan.run(prog),
+                  lambda prog, tier: strscan.run(prog), lambda prog, tier: strscan.run_advance(prog),
                   lambda prog, tier: rawidx.run(prog),
                   lambda prog, tier: idx.run(prog),
                   lambda prog, tier: lenm1.run(prog),
@@ -547,7 +547,7 @@ PROPS = {
                   lambda prog, tier: allockind.run(prog),
                   lambda prog, tier: intdiv.run(prog),
                   lambda prog, tier: localfield.run(prog, shared_eff(prog)),
-                  lambda prog, tier: strscan.run(prog),
+                  lambda prog, tier: strscan.run(prog), lambda prog, tier: strscan.run_advance(prog),
                   lambda prog, tier: rawidx.run(prog),
                   lambda prog, tier: appendinit.run(prog), lambda prog, tier: appendinit.run_repack(prog),
                   lambda prog, tier: counter.run(prog),
@@ -707,7 +707,8 @@ _ADD = {
                            "conversion no array of the converted LP is subscripted with a raw index and vice versa (index-space typing per loop). "
                            "(R-IDX) an index obtained from a name of the input (symbol-table lookup, directly or through ILLlib_colindex / rowindex) "
                            "subscripts a basis or problem array only after a test that excludes -1 / negatives (the basis reader). (R-LENM1) the "
-                           "last-character idiom s[strlen - 1] is evaluated only where the length is known positive.",
+                           "last-character idiom s[strlen - 1] is evaluated only where the length is known positive. (R-STRADV) a scanning pointer is "
+                           "advanced over a token by the token's length only, never over an unexamined character.",
             "level_text": " (R-ALLOCKIND) arrays of exact numbers are created by the number-array allocator, never by a raw realloc (an MPS "
                           "file with an SOS section crashed the rational reader on the pinned tree).",
             "technique": "; census of printf-like calls (set computed from the declarations) with literal / forwarded-format discharge; "
